@@ -7,7 +7,7 @@
 From Coq Require Import ZArith Reals Lia Lra.
 From Coquelicot Require Import Complex.
 From Arim Require Import Base.Num Base.NumR Model.ScatMatrix Model.Dft
-                         Proofs.ScatMatrixProofs Proofs.DftProofs.
+                         Proofs.ScatMatrixProofs Proofs.DftProofs Proofs.Dft2Proofs.
 Local Open Scope R_scope.
 
 (* entry [j, i] is the function value for incident angle -P + 2P i/n and scattered angle
@@ -58,6 +58,19 @@ Proof. exact rotate_whole_steps. Qed.
 Theorem rotate_fft_circular : forall X n (j1 j2 : Z), (0 < n)%nat ->
   idft2 X n (j1 + Z.of_nat n) j2 = idft2 X n j1 j2 /\ idft2 X n j1 (j2 + Z.of_nat n) = idft2 X n j1 j2.
 Proof. exact idft2_periodic. Qed.
+
+(* ... and since the two-dimensional Fourier sums invert each other (orthogonality of the roots
+   of unity, twice), this is a statement about the MATRIX: rotate_matrix by m grid steps
+   returns the matrix with both indices shifted circularly by m *)
+Theorem rotate_matrix_is_index_shift : forall (x : nat -> nat -> C) n (m : Z) (j1 j2 : nat),
+  (j1 < n)%nat -> (j2 < n)%nat ->
+  idft2 (rotate_spectrum (dft2 x n) n (IZR m * (2 * PI / INR n))) n (Z.of_nat j1) (Z.of_nat j2)
+  = x (Z.to_nat ((Z.of_nat j1 - m) mod Z.of_nat n)) (Z.to_nat ((Z.of_nat j2 - m) mod Z.of_nat n)).
+Proof. exact rotate_is_index_shift. Qed.
+
+Theorem fourier_inversion_2d : forall (x : nat -> nat -> C) n (j1 j2 : nat), (j1 < n)%nat -> (j2 < n)%nat ->
+  idft2 (dft2 x n) n (Z.of_nat j1) (Z.of_nat j2) = x j1 j2.
+Proof. exact idft2_dft2. Qed.
 
 (* data-backed scatterers: linear in frequency, reproducing the data at the samples *)
 Theorem freq_interp_nodes : forall f0 f1 v0 v1, f0 <> f1 ->
